@@ -210,7 +210,10 @@ def gen_groups(rng, n_groups, names=None, modes=None):
                     dt = 'float64'
                 vals = [loguniform(rng, 1e-9, 1e9) for _ in range(n)]
                 if dt == 'int64':
-                    vals = [min(max(v, unit[1]), 3e4 * unit[1]) for v in vals]
+                    # whole numbers of the unit; for the time-of-flight also large tick counts (ns / us clocks: up to
+                    # 9e9 ticks - squaring them in int64 overflowed before fix 'energy_from_tof ... int64')
+                    cap = 9e9 if (nm == 'tof' and rng.random() < 0.5) else 3e4
+                    vals = [min(max(v, unit[1]), cap * unit[1]) for v in vals]
                 if dt == 'float32':
                     vals = [min(max(v, 1e-30 * unit[1]), 1e30 * unit[1]) for v in vals]
             put(nm, operand(rng, KIND[nm], vals, dtype=dt, dim=dim, unit=unit), pos)
